@@ -117,10 +117,19 @@ def main():
             r1, s1 = state(f)(x)
             r2, s2 = jax.jit(state(f))(x)
             r3, s3 = seed(state(f))(jax.random.key(0), x)
+            # the same state(.) wrapper called again: first on a different program (selected by the argument's
+            # rank) that saves other names, then on this one - the second result holds exactly this program's saves
+            other = gen_directed(rng, [50]) if _ % 2 else gen_block(rng, 2, False, [50])
+            sw = state(lambda a: run_block(other, jnp.float32(0.0), jnp.float32(0.0), 0, jnp.sum(a)) if jnp.ndim(a) else f(a))
+            sw(jnp.zeros((2,), dtype=jnp.float32))
+            r4, s4 = sw(x)
+            first = sw(jnp.zeros((2,), dtype=jnp.float32))[1]
+            r5, s5 = sw(x)
             # the result is a float32 sum of the saved values (up to ~1e8): equal up to summation order
             close = lambda a, b: bool(jnp.abs(a - b) <= 1e-5 * (1.0 + jnp.abs(b)))  # noqa: E731
             c["transparent"] = close(plain, r1) and close(plain, r2) and close(plain, r3)
-            c["obs"] = [canon_tree(s1), canon_tree(s2), canon_tree(s3)]
+            c["transparent"] = c["transparent"] and close(plain, r4) and close(plain, r5)
+            c["obs"] = [canon_tree(s1), canon_tree(s2), canon_tree(s3), canon_tree(s4), canon_tree(s5)]
         except Exception as e:  # noqa: BLE001
             c["err"] = type(e).__name__ + ": " + str(e)[:200]
         cases.append(c)
